@@ -1,147 +1,16 @@
 ------------------------------ MODULE Parsers ------------------------------
 (***************************************************************************)
-(* Operational models of the three ParseVector implementations, one step   *)
-(* per step the code takes:                                                *)
-(*   v2.0  - split at the first 13 "/" (14th part keeps the remainder),    *)
-(*           walk the 3-group order table, temporal-or-environmental       *)
-(*           choice at the first element after the base group;             *)
-(*   v3.x  - header, elements split at "/" and cut at the first ":", a     *)
-(*           "seen" record (unknown -> metric error, duplicate ->          *)
-(*           definedN) THEN the value check, finally the ordered           *)
-(*           "missing" checks;                                             *)
-(*   v4.0  - header, chunks that must each start with "/", the inner       *)
-(*           order walk as its own step (skips optional metrics, never a   *)
-(*           base metric), value check, final "too short" check.           *)
-(* The step relation is written once, as the function PStep on a record;   *)
-(* the actions below take one PStep each (exhaustive configs: TLC sees     *)
-(* every cursor state, checks the walk terminates), and Run iterates it    *)
-(* to completion in one go (big-step configs, 10x fewer states).           *)
-(* The declarative Grammar is what they must refine (checked by TLC:       *)
-(* accepted <=> WF, and the object built = Meaning).                       *)
+(* State-machine view of the operational parser models of ParserFns: one   *)
+(* action per kind of step (so that TLC shows every cursor state and       *)
+(* -coverage every action), the big-step action, and the properties the    *)
+(* automata must satisfy with respect to the declarative Grammar.          *)
 (***************************************************************************)
-EXTENDS Object, TLC
+EXTENDS ParserFns
 
 VARIABLES inp,    \* [ver, b, tag, exp] - the call under consideration
           ps      \* parser state: [pc, parts, slci, oi, seen, pend, obj, res]
 
 pvars == <<inp, ps>>
-
-Unset == "?"
-Fresh(ver) == [m \in MetricSet(ver) |-> IF m \in Mandatory(ver) THEN Unset ELSE Undef(ver)]
-
-NoPend == [a |-> <<>>, v |-> <<>>]
-
-(* pc: "build" (input under construction, see MC_Parse), "start", "elem",   *)
-(* "walk", "set", "done"                                                    *)
-PInit(ver, pc0) ==
-  [ pc |-> pc0, parts |-> <<>>, slci |-> 0, oi |-> 0, seen |-> {}, pend |-> NoPend,
-    obj |-> Fresh(ver), res |-> [ok |-> FALSE, err |-> NoErr] ]
-
-Fail(s, e) == [s EXCEPT !.pc = "done", !.res = [ok |-> FALSE, err |-> e]]
-
-(* ---- splitting as the code does it ---------------------------------------- *)
-Split14(b) ==
-  LET P == SepPos(b, SLASH)
-      Q == IF Len(P) > 13 THEN SubSeq(P, 1, 13) ELSE P
-      R == <<0>> \o Q \o <<Len(b) + 1>>
-  IN  Mat([k \in 1..(Len(R) - 1) |-> SubSeq(b, R[k] + 1, R[k + 1] - 1)])
-
-(* v4: the scan starts at the second byte; every chunk keeps its first byte *)
-Chunks40(rest) ==
-  IF rest = <<>> THEN <<>>
-  ELSE LET P == SelectSeq(SepPos(rest, SLASH), LAMBDA j : j >= 2)
-           R == <<1>> \o P \o <<Len(rest) + 1>>
-       IN  Mat([k \in 1..(Len(R) - 1) |-> SubSeq(rest, R[k], R[k + 1] - 1)])
-
-Groups40 == <<Base40, Threat40, Env40, Supp40>>
-
-(* ---- start: header check and splitting ------------------------------------ *)
-StartF(c, s) ==
-  LET ver == c.ver
-      h == SB[Header(ver)]
-  IN  IF ver # "2.0" /\ ~HasPrefix(c.b, h)
-      THEN Fail(s, Err("header"))
-      ELSE [s EXCEPT !.pc = "elem",
-                     !.parts = CASE ver = "2.0" -> Split14(c.b)
-                                 [] ver \in {"3.0", "3.1"} -> Split(DropPrefix(c.b, Len(h)), SLASH)
-                                 [] ver = "4.0" -> Chunks40(DropPrefix(c.b, Len(h)))]
-
-(* ---- v2.0: one element ------------------------------------------------------ *)
-Elem20F(c, s) ==
-  LET kv == Cut(Head(s.parts))
-      \* the temporal-or-environmental choice
-      jump == s.slci = 1 /\ s.oi = 0 /\ kv.a # SB[Groups20[2][1]]
-      g == IF jump THEN 2 ELSE s.slci
-  IN  IF s.slci = 3 THEN Fail(s, Err("value"))       \* nothing may follow the environmental group
-      ELSE IF kv.a # SB[Groups20[g + 1][s.oi + 1]] THEN Fail(s, Err("order"))
-      ELSE LET r == SetB("2.0", s.obj, kv.a, kv.v)
-           IN  IF ~r.ok THEN Fail(s, r.err)
-               ELSE LET wrap == s.oi + 1 = Len(Groups20[g + 1])
-                    IN  [s EXCEPT !.obj = r.obj, !.parts = Tail(s.parts),
-                                  !.slci = IF wrap THEN g + 1 ELSE g,
-                                  !.oi = IF wrap THEN 0 ELSE s.oi + 1]
-
-(* ---- v3.x: one element -------------------------------------------------------- *)
-Elem3xF(c, s) ==
-  LET kv == Cut(Head(s.parts))
-      m == MetricOf(c.ver, kv.a)
-  IN  IF m = NoMetric THEN Fail(s, ErrAbv("metric", kv.a))
-      ELSE IF m \in s.seen THEN Fail(s, ErrAbv("definedN", kv.a))
-      ELSE LET r == SetB(c.ver, s.obj, kv.a, kv.v)
-           IN  IF ~r.ok THEN Fail(s, r.err)
-               ELSE [s EXCEPT !.obj = r.obj, !.seen = s.seen \cup {m}, !.parts = Tail(s.parts)]
-
-(* ---- v4.0: chunk, order walk, set ------------------------------------------------ *)
-Elem40F(c, s) ==
-  LET ch == Head(s.parts)
-  IN  IF ch[1] # SLASH THEN Fail(s, Err("value"))
-      ELSE LET kv == Cut(Tail(ch))
-           IN  [s EXCEPT !.pend = [a |-> kv.a, v |-> kv.v], !.parts = Tail(s.parts), !.pc = "walk"]
-
-Walk40F(c, s) ==
-  IF s.slci = 4 \/ (s.slci = 0 /\ s.pend.a # SB[Groups40[1][s.oi + 1]])
-  THEN Fail(s, Err("order"))
-  ELSE LET out == s.pend.a = SB[Groups40[s.slci + 1][s.oi + 1]]
-           wrap == s.oi + 1 = Len(Groups40[s.slci + 1])
-       IN  [s EXCEPT !.slci = IF wrap THEN s.slci + 1 ELSE s.slci,
-                     !.oi = IF wrap THEN 0 ELSE s.oi + 1,
-                     !.pc = IF out THEN "set" ELSE "walk"]
-
-Set40F(c, s) ==
-  LET r == SetB("4.0", s.obj, s.pend.a, s.pend.v)
-  IN  IF ~r.ok THEN Fail(s, r.err)
-      ELSE [s EXCEPT !.obj = r.obj, !.pend = NoPend, !.pc = "elem"]
-
-(* ---- end of input ------------------------------------------------------------------ *)
-FirstMissing(ver, seen) ==
-  LET B == BaseSeq(ver)
-      KK == {k \in 1..Len(B) : B[k] \notin seen}
-  IN  IF KK = {} THEN NoMetric ELSE B[CHOOSE k \in KK : \A j \in KK : k <= j]
-
-FinishF(c, s) ==
-  LET ver == c.ver
-      e == CASE ver = "2.0" -> IF s.oi # 0 THEN Err("short") ELSE NoErr
-             [] ver \in {"3.0", "3.1"} ->
-                  IF FirstMissing(ver, s.seen) # NoMetric
-                  THEN ErrAbv("missing", SB[FirstMissing(ver, s.seen)]) ELSE NoErr
-             [] ver = "4.0" -> IF s.slci = 0 THEN Err("short") ELSE NoErr
-  IN  [s EXCEPT !.pc = "done", !.res = [ok |-> e = NoErr, err |-> e]]
-
-(* the step function: defined exactly when pc is one of the running states *)
-PStep(c, s) ==
-  CASE s.pc = "start" -> StartF(c, s)
-    [] s.pc = "elem" /\ s.parts = <<>> -> FinishF(c, s)
-    [] s.pc = "elem" /\ s.parts # <<>> /\ c.ver = "2.0" -> Elem20F(c, s)
-    [] s.pc = "elem" /\ s.parts # <<>> /\ c.ver \in {"3.0", "3.1"} -> Elem3xF(c, s)
-    [] s.pc = "elem" /\ s.parts # <<>> /\ c.ver = "4.0" -> Elem40F(c, s)
-    [] s.pc = "walk" -> Walk40F(c, s)
-    [] s.pc = "set" -> Set40F(c, s)
-
-RECURSIVE Run(_, _)
-Run(c, s) == IF s.pc = "done" THEN s ELSE Run(c, PStep(c, s))
-
-(* the whole call as a function of the input: used by the trace specs *)
-ParseResult(ver, b) == Run([ver |-> ver, b |-> b], PInit(ver, "start"))
 
 (* ---- actions (one per kind of step, so that -coverage shows each) --------------------- *)
 Start  == ps.pc = "start" /\ ps' = StartF(inp, ps) /\ UNCHANGED inp
